@@ -176,6 +176,9 @@ class FileProxy:
         return self._f.writelines(d)
 
     def truncate(self, *a):
+        # truncate() of a buffered file is two system-level steps: write out the buffer, then ftruncate
+        self._fire("f.flush")
+        self._f.flush()
         self._fire("f.truncate")
         return self._f.truncate(*a)
 
